@@ -349,6 +349,24 @@ class WorkTreeContainer:
         yield from self.list()
 
 
+def _remove_df_conflicts(index: "Index", tree_path: bytes) -> None:
+    """Drop the index entries that cannot coexist with a file at ``tree_path``.
+
+    A path cannot be a file and a directory at the same time: when
+    ``tree_path`` becomes a file entry, entries below ``tree_path/`` and entries
+    for any leading directory of ``tree_path`` have to go (like ``git add``).
+    """
+    parts = tree_path.split(b"/")
+    for i in range(1, len(parts)):
+        try:
+            del index[b"/".join(parts[:i])]
+        except KeyError:
+            pass
+    prefix = tree_path + b"/"
+    for name in [name for name in index if name.startswith(prefix)]:
+        del index[name]
+
+
 class WorkTree:
     """Working tree operations for a Git repository.
 
@@ -440,6 +458,7 @@ class WorkTree:
                     blob = blob_from_path_and_stat(full_path, st)
                     blob = blob_normalizer.checkin_normalize(blob, fs_path)
                     self._repo.object_store.add_object(blob)
+                    _remove_df_conflicts(index, tree_path)
                     index[tree_path] = index_entry_from_stat(st, blob.id)
         index.write()
 
